@@ -160,6 +160,14 @@ def _impl(tier, seed, search):
         'skew([0,y,z])': (lambda: b.skew([0, y, z]), lambda y_, z_: b.skew([0, y_, z_]), [y, z]),
         'SE3*point([1,y,2])': (lambda: SE3.Rx(th) * [1, y, 2], lambda t, y_: SE3.Rx(t) * [1, y_, 2], [th, y]),
         'transl((0,y,z)) tuple': (lambda: b.transl((0, y, z)), lambda y_, z_: b.transl((0, y_, z_)), [y, z]),
+        # quaternion powers, every small exponent incl. 0 (the identity), symbolic and mixed
+        'qpow(q,0)': (lambda: b.qpow(list(vs[:4]), 0), lambda *p: b.qpow(list(p), 0), list(vs[:4])), 'qpow(q,1)': (lambda: b.qpow(list(vs[:4]), 1), lambda *p: b.qpow(list(p), 1), list(vs[:4])),
+        'qpow(q,3)': (lambda: b.qpow(list(vs[:4]), 3), lambda *p: b.qpow(list(p), 3), list(vs[:4])), 'qpow([1,x,0,2],0)': (lambda: b.qpow([1, x, 0, 2], 0), lambda x_: b.qpow([1, x_, 0, 2], 0), [x]),
+        'qpow(q,-1)': (lambda: b.qpow(list(vs[:4]), -1), lambda *p: b.qpow(list(p), -1), list(vs[:4])),
+        # differential motion between a numeric and a symbolic pose, either way round
+        'tr2delta(numeric,symbolic)': (lambda: b.tr2delta(b.trotx(0.3), b.trotx(th) @ b.transl(x, y, z)), lambda t, x_, y_, z_: b.tr2delta(b.trotx(0.3), b.trotx(t) @ b.transl(x_, y_, z_)), [th, x, y, z]),
+        'tr2delta(symbolic,numeric)': (lambda: b.tr2delta(b.trotx(th) @ b.transl(x, y, z), b.trotx(0.3)), lambda t, x_, y_, z_: b.tr2delta(b.trotx(t) @ b.transl(x_, y_, z_), b.trotx(0.3)), [th, x, y, z]),
+        'SE3.delta(numeric,symbolic)': (lambda: SE3.Rx(0.3).delta(SE3.Rx(th)), lambda t: SE3.Rx(0.3).delta(SE3.Rx(t)), [th]),
         # mixed symbol / number vectors for the augmented-skew family (numeric rotational part, symbolic translational part and the reverse)
         'skewa([x,y,0.3])': (lambda: b.skewa([x, y, 0.3]), lambda x_, y_: b.skewa([x_, y_, 0.3]), [x, y]),
         'skewa([x,y,z,0,0,0])': (lambda: b.skewa([x, y, z, 0, 0, 0]), lambda x_, y_, z_: b.skewa([x_, y_, z_, 0, 0, 0]), [x, y, z]),
